@@ -240,6 +240,8 @@ def run(ctx):
     for i in range(0, len(traces), 4000):
         results += validate(ctx, traces[i:i + 4000], "trace validation batch %d" % (i // 4000))
     judge(ctx, results, "mle")
+    # the public builder (dense and every sparse container, incl. a COO matrix with repeated coordinates)
+    mle_container_part(ctx, side=False)
     ctx.exhaustive = False
 
 
@@ -251,7 +253,11 @@ def _builder_record(arg):
     import scipy.sparse as sp
     from enspara.msm import builders
     Cint = np.array(Ci, dtype=np.int64)
-    M = Cint.copy() if cont == "ndarray" else getattr(sp, cont + "_matrix")(Cint)
+    if cont == "coodup":        # one entry of value 1 per count (what assigns_to_counts returns)
+        from props.c04 import make
+        M = make("coodup", Cint)
+    else:
+        M = Cint.copy() if cont == "ndarray" else getattr(sp, cont + "_matrix")(Cint)
     before = (M.toarray() if sp.issparse(M) else M).copy()
     btype = type(M)
     ev = [{"ev": "start", "impl": "builder:" + cont}]
@@ -304,8 +310,10 @@ def _builder_record(arg):
             "cont": cont, "prior": prior, "flag": flag}
 
 
-def mle_container_part(ctx):
-    conts = ["ndarray", "csr", "csc", "coo", "lil", "dok", "dia", "bsr"]
+def mle_container_part(ctx, side=True):
+    """builders.mle, the public entry point, in every container.  side=True (C04): container type, caller's
+    matrix, returned counts are judged too; side=False (C12): only the MLE.tla clauses."""
+    conts = ["ndarray", "csr", "csc", "coo", "lil", "dok", "dia", "bsr", "coodup"]
     mats = enumerate_inputs(ctx, [dict(N=3, MaxC=2)])
     step = 40 if ctx.tier == "quick" else 8
     mats = mats[ctx.seed % step::step]
@@ -314,7 +322,7 @@ def mle_container_part(ctx):
     for r in recs:
         C = np.array(r["C"])
         ctx.case(("mle", str(r["C"]), r["cont"], r["prior"], r["flag"]) if not np.array_equal(C, C.T) else None)
-        for key, detail in r["side"]:
+        for key, detail in (r["side"] if side else []):
             ctx.violation({"kind": "replay", "builder": "mle", "container": r["cont"], "prior": r["prior"],
                            "calculate_eq_probs": r["flag"], "C": r["C"], "detail": detail}, key=key)
     results = validate(ctx, [dict({k: v for k, v in r.items() if k != "side"}, prior=r["prior"] or 0)
